@@ -323,9 +323,15 @@ def gen_guard_case(rng):
             hs.reverse()
     if rng.random() < 0.5:
         hs.append({"events": ["after_binop", "after_int"], "pred": gen_node_pred(rng)})
+    def make_dynamic(p):
+        # guard scenarios are about guards: keep the recorded static-condition finding out of them
+        if p.get("combine"):
+            for q in p["parts"]:
+                make_dynamic(q)
+        elif p.get("kind") not in ("true", "false"):
+            p["dynamic"] = True
     for h in hs:
-        if h.get("guard") and h["pred"].get("kind") != "true":
-            h["pred"]["dynamic"] = True if "dynamic" in h["pred"] else h["pred"].get("dynamic")
+        make_dynamic(h["pred"])
     return {"src": rc.gen_program(rng), "tracers": [{"handlers": hs, "guards": False}], "reference": ["load_name", "after_binop", "after_int"], "export": False, "guard_case": True}
 
 
